@@ -107,6 +107,11 @@ func one(r *ev.Run, env *rt.Env, p progen.Program, st *stats, verbose bool) {
 	}
 	b1, err := safeMarshal(c1)
 	if err != nil {
+		if strings.Contains(err.Error(), "nested too deeply") {
+			// the marshaller declines: no data, nothing that could fail to load
+			r.Outcome(p.Fam + "|marshal-declined-depth")
+			return
+		}
 		rep("marshal-fails", err.Error(), err.Error(), "bytes")
 		return
 	}
@@ -256,6 +261,24 @@ func Check(r *ev.Run, replay string) {
 		}
 		one(r, env, p, st, false)
 	})
+	// blocks nested thousands of levels deep: the symbol tables are marshalled as a tree as deep as the nesting,
+	// which encoding/json writes at any depth and reads down to 10000 levels only
+	{
+		var deep []progen.Program
+		for _, open := range []struct{ name, open, close string }{{"for", "for false { ", " }"}, {"if", "if true { ", " }"}, {"else", "if false { } else { ", " }"}, {"range", "for i := range 0 { ", " }"}, {"switch", "switch 1 { default: ", " }"}} {
+			for _, n := range []int{500, 1600, 2499, 2500, 2600, 3400, 4990, 4999} {
+				deep = append(deep, progen.Program{Fam: "deep-" + open.name, Raw: strings.Repeat(open.open, n) + "y := 1" + strings.Repeat(open.close, n) + "\n7"})
+			}
+		}
+		envs := make([]*rt.Env, 16)
+		ev.ParFor(16, func(w int) {
+			envs[w] = rt.NewEnv(nil)
+			for i := w; i < len(deep); i += 16 {
+				one(r, envs[w], deep[i], st, false)
+			}
+		})
+		r.Set("deeply_nested_programs", len(deep))
+	}
 	r.Set("programs_compiled", int(st.compiled))
 	r.Set("programs_rejected_by_compiler_skipped", int(st.rejected))
 	r.Set("programs_run_side_by_side", int(st.ran))
@@ -272,5 +295,5 @@ func Check(r *ev.Run, replay string) {
 		})
 		r.Set("incremental_sessions", len(ss))
 	}
-	r.Set("rule", "every program of the shared corpus (control skeletons, operators, functions, scoping, containers/strings, errors/defer, closures to depth 3/5, every constant kind and escape): compile, MarshalCode twice (deterministic), compile again (same bytes), UnmarshalCode (never fails), MarshalCode again (same bytes), run original and reloaded code on fresh VMs (same value, error class/message, output); afterwards the original marshals to the same bytes again, and a second load of the bytes and a second run of the first load behave like the first run; plus the code accumulated by one compiler over every sequence of <= 3 inputs from an 11-piece alphabet (accepted inputs and inputs rejected at the top level, inside a function literal, a named function, a block): marshal, unmarshal, re-marshal, run both; distinct = distinct (family, outcome) pairs")
+	r.Set("rule", "every program of the shared corpus (control skeletons, operators, functions, scoping, containers/strings, errors/defer, closures to depth 3/5, every constant kind and escape): compile, MarshalCode twice (deterministic), compile again (same bytes), UnmarshalCode (never fails), MarshalCode again (same bytes), run original and reloaded code on fresh VMs (same value, error class/message, output); afterwards the original marshals to the same bytes again, and a second load of the bytes and a second run of the first load behave like the first run; plus the code accumulated by one compiler over every sequence of <= 3 inputs from an 11-piece alphabet (accepted inputs and inputs rejected at the top level, inside a function literal, a named function, a block): marshal, unmarshal, re-marshal, run both; plus five block forms nested 500..4999 levels deep (the marshaller may decline, what it produces must load); distinct = distinct (family, outcome) pairs")
 }
